@@ -130,7 +130,7 @@ def fix_arg(fn, arg):
     for o in arg[1]:
         t = o[1]
         if t == 1: o = [o[0], 1, o[2], [fc(c) for c in o[3]]] + list(o[4:5])
-        elif t == 2: o = [o[0], 2, o[2], [[fc(c) for c in f] for f in o[3]]] + list(o[4:7])
+        elif t == 2: o = [o[0], 2, o[2], [[fc(c) for c in f] for f in o[3]]] + list(o[4:8])
         elif t == 3: o = [o[0], 3, o[2], [fc(c) for c in o[3]]]
         ops.append(o)
     return [arg[0], ops]
@@ -189,10 +189,21 @@ def _macros_kw(m):
     return {} if not m else {'macros': [(S(k), S(v)) for k, v in m[0]]}
 
 def _opts(o):
-    """(keyless, constructor kwargs) of a reader-creating op: tag 0 = [c, 0, macros, keyless, person_fields],
-    tag 2 = [c, 2, macros, files, entry point, keyless, person_fields]"""
+    """(keyless, constructor kwargs) of a reader-creating op: tag 0 = [c, 0, macros, keyless, person_fields, container],
+    tag 2 = [c, 2, macros, files, entry point, keyless, person_fields, container]; container: how the macro table is
+    handed over (0 list of pairs, 1 dict, 2 CaseInsensitiveDict; absent: chosen from the op's text) -- not part of the
+    computation, the model ignores it"""
     kl_i, pf_i = (3, 4) if o[1] == 0 else (5, 6)
     kw = _macros_kw(o[2])
+    if 'macros' in kw:
+        ck = o[pf_i + 1] if len(o) > pf_i + 1 and isinstance(o[pf_i + 1], int) else len(sx(o)) % 3
+        pairs = kw['macros']
+        if ck % 3 and len(set(k.lower() for k, _ in pairs)) == len(pairs):   # (a dict would merge repeated keys before pybtex sees them)
+            if ck % 3 == 1:
+                kw['macros'] = dict(pairs)
+            else:
+                from pybtex.utils import CaseInsensitiveDict
+                kw['macros'] = CaseInsensitiveDict(pairs)
     kl = bool(o[kl_i]) if len(o) > kl_i and not isinstance(o[kl_i], list) else False
     if kl:
         kw['keyless_entries'] = True
@@ -534,7 +545,7 @@ def oracle_all(fn, arg, out):
     seen = {}
     for i, (o, r) in enumerate(zip(ops, outs)):
         if _self_contained(o):
-            key = (sx(o[:4] + o[5:] if o[1] == 2 else o), strict)     # the entry point used is not part of the computation
+            key = (sx(o[:4] + o[5:7] if o[1] == 2 else o), strict)     # the entry point used is not part of the computation
             # F19: the deviating call is a _format_name / format.name$ call on a name that reports
             # 'Too many commas'.  Whether the report happens depends on whether the call is served from
             # the cache: same value with fewer/more reports (capture, non-strict), or -- in strict mode,
@@ -569,6 +580,7 @@ def oracle_all(fn, arg, out):
                         fails.append(('opaque-repeat', 'call %d (%s) gives another result than %s' % (i, OPAQUE_NAMES[o[2]], what)))
         if o[1] == 6:
             strict = bool(o[2])
+    fails.extend(_accumulation(ops, outs))
     months = {S(k): S(v) for k, v in fin[0]}
     if months != MONTHS:
         changed = sorted(set(months.items()) ^ set(MONTHS.items()))
@@ -582,6 +594,116 @@ def oracle_all(fn, arg, out):
         if capv and (len(fin[2]) > capv or len(fin[4]) > capv):
             fails.append(('memo-inv', 'a name cache holds more than its capacity %d' % capv))
     return fails
+
+class _SimReader(object):
+    """what the property text fixes about one reader's macro table, written without looking at pybtex: it starts
+    as the given table (the twelve months when none is given), names are case-insensitive, every @string read by
+    this reader -- in any of its files -- adds or replaces a definition, nothing else does"""
+    def __init__(self, o):
+        kl, kw = _opts(o)
+        self.keyless = kl
+        self.roles = set(x.lower() for x in kw.get('person_fields', ['author', 'editor']))
+        self.known = {}
+        pairs = [(S(k), S(v)) for k, v in o[2][0]] if o[2] else list(MONTHS.items())
+        for k, v in pairs:
+            self.known[k.lower()] = v
+        self.maybe = set()
+        self.keys = set()
+    def harmless(self, file):
+        """no source of a report other than an undefined macro: no malformed command, person field, duplicate field,
+        repeated key, keyless naming"""
+        if self.keyless:
+            return False
+        for c in file:
+            if c[0] == 4:
+                return False
+            if c[0] == 2:
+                names = [S(f[0]).lower() for f in c[3]]
+                if len(set(names)) != len(names) or set(names) & self.roles or S(c[2]).lower() in self.keys:
+                    return False
+        return len(set(S(c[2]).lower() for c in file if c[0] == 2)) == len([c for c in file if c[0] == 2])
+    def all_defined(self, file):
+        known = set(self.known)
+        for c in file:
+            parts = c[2] if c[0] == 0 else c[1] if c[0] == 1 else [p for f in c[3] for p in f[1]] if c[0] == 2 else []
+            if any(p[0] == 1 and S(p[1]).lower() not in known for p in parts):
+                return False
+            if c[0] == 0:
+                known.add(S(c[1]).lower())
+        return True
+    def value(self, parts):
+        out = []
+        for p in parts:
+            if p[0] == 0:
+                out.append(S(p[1]))
+            else:
+                n = S(p[1]).lower()
+                if n in self.known:
+                    out.append(self.known[n])
+                else:
+                    return None, (None if n in self.maybe else S(p[1]))
+        return ''.join(out), None
+    def feed(self, file, clean, snapshot, where, fails, raised=None):
+        if raised is not None and not clean and self.harmless(file) and self.all_defined(file):
+            fails.append(('accumulate', '%s reported a problem (%s) although every macro it uses was given to this reader or defined by an @string it has read' % (where, raised)))
+        for c in file:
+            if c[0] == 2:
+                self.keys.add(S(c[2]).lower())
+        for c in file:
+            if c[0] == 0:
+                n = S(c[1]).lower()
+                v, phantom = self.value(c[2]) if clean else (None, None)
+                if phantom is not None:
+                    fails.append(('phantom-macro', '%s read macro %r, which this reader never defined and was not given, without reporting anything' % (where, phantom)))
+                if v is None:
+                    self.known.pop(n, None); self.maybe.add(n)
+                else:
+                    self.known[n] = v
+            elif c[0] == 2 and clean:
+                ent = None
+                if not self.keyless:
+                    ent = [e for e in snapshot if S(e[0]) == S(c[2])]
+                for f in c[3]:
+                    v, phantom = self.value(f[1])
+                    if phantom is not None:
+                        fails.append(('phantom-macro', '%s read macro %r, which this reader never defined and was not given, without reporting anything' % (where, phantom)))
+                    if v is None or S(f[0]).lower() in self.roles or not ent:
+                        continue
+                    got = [S(x[1]) for x in ent[0][2] if S(x[0]).lower() == S(f[0]).lower()]
+                    want = ' '.join(v.split())
+                    if got and got[0] != want:
+                        fails.append(('accumulate', '%s: field %s of entry %s is %r; with the @string definitions this reader has read so far it must be %r' % (where, S(f[0]), S(c[2]), got[0], want)))
+
+def _accumulation(ops, outs):
+    """'@string macros accumulate across the files of one reader' and 'a table without months stays without
+    months', checked on every reader of the history"""
+    fails = []
+    sims = []
+    for i, (o, r) in enumerate(zip(ops, outs)):
+        v = r[0]
+        clean = v[:1] == [0] and r[1] == 0 and (not r[2] or not r[2][0])
+        if o[1] == 0:
+            sims.append(_SimReader(o))
+        elif o[1] == 1 and o[2] < len(sims):
+            snap = v[1][1] if clean and v[1][:1] == [2] else []
+            sims[o[2]].feed(o[3], clean, snap, 'call %d (file %d+ of reader %d)' % (i, 1, o[2]), fails, raised=_c_out(r))
+        elif o[1] == 2:
+            sim = _SimReader(o)
+            snap = v[1][1] if clean and v[1][:1] == [2] else []
+            ok_all = True
+            for f in o[3]:      # (only when the whole call is free of other report sources)
+                ok_all = ok_all and sim.harmless(f) and sim.all_defined(f)
+                for c in f:
+                    if c[0] == 0: sim.known.setdefault(S(c[1]).lower(), None)
+                    if c[0] == 2: sim.keys.add(S(c[2]).lower())
+            sim = _SimReader(o)
+            if not clean and ok_all:
+                fails.append(('accumulate', 'call %d (a fresh reader, %d files) reported a problem (%s) although every macro it uses was given to it or defined by an @string in its files' % (i, len(o[3]), _c_out(r))))
+            for j, f in enumerate(o[3]):
+                sim.feed(f, clean, snap, 'call %d (file %d of a fresh reader)' % (i, j + 1), fails)
+        elif o[1] == 3 and o[2] and o[2][0] < len(sims):
+            sims[o[2][0]].feed(o[3], False, [], '', fails)      # a LowLevelParser sharing the reader's table: definitions become 'maybe'
+    return fails[:3]
 
 KNOWN_KINDS = {'repeat-reports': 'F19', 'fresh-reports': 'F19'}
 
@@ -653,10 +775,10 @@ def ENT(typ, key, *fields): return [2, typ, key, [[n, list(v)] for n, v in field
 def STR(name, *v): return [0, name, list(v)]
 def PRE(*v): return [1, list(v)]
 COMMENT, BAD = [3], [4]
-def NEWR(macros=None, c=0, keyless=0, pf=None): return [c, 0, [] if macros is None else [macros], keyless, [] if pf is None else [pf]]
+def NEWR(macros=None, c=0, keyless=0, pf=None, container=None): return [c, 0, [] if macros is None else [macros], keyless, [] if pf is None else [pf]] + ([] if container is None else [container])
 def FEED(r, file, c=0, ep=None): return [c, 1, r, file] + ([] if ep is None else [ep])
-def PARSE(files, macros=None, c=0, ep=None, keyless=0, pf=None):
-    return [c, 2, [] if macros is None else [macros], files, -1 if ep is None else ep, keyless, [] if pf is None else [pf]]
+def PARSE(files, macros=None, c=0, ep=None, keyless=0, pf=None, container=None):
+    return [c, 2, [] if macros is None else [macros], files, -1 if ep is None else ep, keyless, [] if pf is None else [pf]] + ([] if container is None else [container])
 def OPAQUE(k, c=0): return [c, 7, k]
 def LOWL(file, r=None, c=0): return [c, 3, [] if r is None else [r], file]
 def FNAME(names, n, fmt, c=0): return [c, 4, names, n, fmt]
@@ -842,8 +964,21 @@ def gen(tier, rng):
             yield ('two_readers', 2, [2, [NEWR(keyless=1), NEWR(pf=['Translator']), FEED(0, KFILE, ep=ep_a), FEED(1, [STR('m', L_('B')), PRE(M_('m'))] + PFILE, ep=ep_b),
                                           FEED(0, KFILE_BAD, ep=ep_a, c=1), FEED(1, [ENT('misc', 'k2', ('note', [M_('m')]))], ep=ep_b), FEED(0, KFILE, ep=ep_b, c=1),
                                           LOWL([ENT('a', 'k', ('n', [M_('m')]))], r=1), PARSE([PFILE]), PARSE([KFILE], keyless=1)]])
+    # ---- '@string macros accumulate across the files of one reader', for readers created with an EMPTY table, a small
+    #      custom one, each handed over as list / dict / CaseInsensitiveDict, through every entry point; an empty table
+    #      stays empty of months (what the BibTeX engine builds for a style without MACRO commands)
+    F1 = [STR('acc', L_('First')), STR('Two', M_('acc'), L_(' 2'))]
+    F2 = [ENT('misc', 'k', ('note', [M_('acc'), L_(' and '), M_('TWO')]), ('title', [M_('ACC')]))]
+    F3 = [ENT('misc', 'k2', ('month', [M_('jan')]))]
+    for table in ([], [['x', 'X']], [['acc', 'given'], ['Y', 'y']]):
+        for container in range(3):
+            for ep in range(4):
+                yield ('accumulate', 2, [2, [NEWR(table, container=container), FEED(0, F1, ep=ep), FEED(0, F2, ep=(ep + 1) % 4), FEED(0, F2[:0] + [ENT('misc', 'k3', ('note', [M_('two')]))], ep=ep, c=1), FEED(0, F3, c=1)]])
+            for ep in range(7):
+                yield ('accumulate', 2, [2, [PARSE([F1, F2], macros=table, container=container, ep=ep), PARSE([F1, [COMMENT], F2], macros=table, container=container, ep=ep, c=1),
+                                             PARSE([F3], macros=table, container=container, ep=ep, c=1), PARSE([F2], macros=table, container=container, ep=ep, c=1)]])
     # ---- fn 2: random histories
-    for i in range(700 if tier == 'quick' else 6000):
+    for i in range(500 if tier == 'quick' else 6000):
         cap = rng.choice([1, 2, 3, 4, 8, 0])
         yield ('history_random', 2, [cap, rand_history(rng, rng.choice([3, 6, 10, 16, 24] if tier == 'quick' else [3, 6, 10, 20, 40]))])
 
@@ -1267,6 +1402,47 @@ def extra_checks(ck, tier, rng):
         fails.append(('fresh interpreter run', 'failed: %r %s' % (e, pr.stderr[-400:]), False))
     yield {'name': 'real_api_histories', 'evaluations': len(jobs) + nfresh, 'failures': fails[:6],
            'info': 'calls: %s; probes: %s; each probe repeated after every call of the history and compared with its first value and with a fresh interpreter under another hash seed; month_names, captured_errors, cache shape and a long-lived database snapshot checked after every history' % (', '.join(names), ', '.join(REAL_PROBES))}
+    # 3b. the BibTeX engine with a style that has no MACRO command (its reader gets an EMPTY macro table): the @string
+    #     definitions of the first .bib file must be visible in the second one (one \\bibdata, one reader), and no month
+    #     macro may appear from nowhere
+    import pybtex.bibtex
+    _reset(None)
+    env3 = _Env()
+    efails = []
+    nev = 0
+    try:
+        bib_a = '@string{acc = "Accumulated"}\n@misc{k0, author = {Q R}, title = "zero"}\n'
+        bib_b = '@misc{k1, author = {Ann Lee}, title = acc # " title"}\n'
+        bib_m = '@misc{k2, author = {Ann Lee}, title = {t}, month = jan}\n'
+        for nm, txt in (('a', bib_a), ('b', bib_b), ('m', bib_m)):
+            with open(os.path.join(env3.dir, nm + '.bib'), 'w') as f:
+                f.write(txt)
+        def via_aux(names):
+            aux = os.path.join(env3.dir, 'doc.aux')
+            with open(aux, 'w') as f:
+                f.write('\\relax\n\\citation{*}\n\\bibstyle{%s}\n\\bibdata{%s}\n' % (env3.nomacro, ','.join(os.path.join(env3.dir, n) for n in names)))
+            pybtex.bibtex.make_bibliography(aux)
+            return open(os.path.join(env3.dir, 'doc.bbl')).read()
+        runs = [('make_bibliography(\\bibdata{a,b})', lambda: via_aux(['a', 'b'])),
+                ('format_from_strings([a, b])', lambda: pybtex.bibtex.format_from_strings([bib_a, bib_b], style=env3.nomacro)),
+                ('format_from_files([a.bib, b.bib])', lambda: pybtex.bibtex.format_from_files([os.path.join(env3.dir, 'a.bib'), os.path.join(env3.dir, 'b.bib')], style=env3.nomacro))]
+        for rep_ in range(2):
+            for what, f in runs:
+                nev += 1
+                r = call_impl(f)
+                if r[0] != 0 or 'Accumulated title' not in S(r[1]):
+                    efails.append(('BibTeX engine, style without MACRO, %s (run %d)' % (what, rep_ + 1),
+                                   'the @string of the first .bib file is not visible in the second: %s' % (S(r[1])[:160] if r[0] == 0 else 'raised'), True))
+        nev += 1
+        r = call_impl(lambda: pybtex.bibtex.format_from_strings([bib_a, bib_m], style=env3.nomacro))
+        if r[0] == 0:
+            efails.append(('BibTeX engine, style without MACRO, month = jan', 'the month macro was expanded although the style defines none: %s' % S(r[1])[:160], True))
+    except Exception as e:
+        efails.append(('engine_macros_accumulate', 'harness error %r' % (e,), False))
+    finally:
+        env3.close(); _reset(None)
+    yield {'name': 'engine_macros_accumulate', 'evaluations': nev, 'failures': efails[:3],
+           'info': 'two .bib files under one \\bibdata / format_from_strings / format_from_files with a .bst that has no MACRO command'}
     # 4. F19 through the public API (known finding): the same BibTeX-engine run twice inside capture()
     import pybtex.bibtex
     _reset(None)
